@@ -53,6 +53,10 @@ func (r *Report) add(rule, key, pos string, ok bool, fact string) *Obligation {
 	}
 	o := &Obligation{Prop: r.Prop, Rule: rule, Key: rule + " · " + key, Pos: pos, Status: st, Fact: fact, Config: r.cfg}
 	r.Obls = append(r.Obls, o)
+	if pat := os.Getenv("HLINT_OBL"); pat != "" && strings.Contains(o.Key, pat) {
+		// developer aid: print every obligation whose key contains $HLINT_OBL
+		fmt.Fprintf(os.Stderr, "OBL %s | %s | %s | %s\n", o.Status, o.Key, o.Pos, o.Fact)
+	}
 	return o
 }
 
